@@ -83,6 +83,7 @@ func doProposal014(instructionSet *JumpTable) {
 		minStack:    minStack(9, 1),
 		maxStack:    maxStack(9, 1),
 		memorySize:  memoryAuthCall,
+		writes:      true,
 	}
 }
 
